@@ -31,7 +31,7 @@ func init() {
 			"malformed frames: wrong marker at every position, truncation after every byte, length above the reader's buffer. Oracle: out = in boundary for boundary, each datagram reaches the destination named in its header, each reply carries the replying host's address, malformed input yields an error. distinct = distinct (sequence, chunking, header kind)",
 		Assumptions:    []string{"datagram contents are three fixed patterns that include the 0x00 / 0xff marker bytes"},
 		Units:          units,
-		QuickBudget:    60,
+		QuickBudget:    240,
 		ThoroughBudget: 300,
 	})
 }
